@@ -1,4 +1,6 @@
 """Template for properties decided by one Lang suite (C07, C12, C13, ...)."""
+import json
+import os
 from vlib import common as C
 from vlib import langsuite as L
 
@@ -42,11 +44,28 @@ def run_one(prop, suite, tier, rule, assumptions, extra_thorough=(), gen=0, extr
     for s in twin_suites:
         r = L.run_suite(chk, s, tier)
         broken = {m.get("id") for m in r["mismatches"] if not str(m.get("id", "")).endswith("#const")}
+        broken_twins = {str(m.get("id", ""))[:-6] for m in r["mismatches"] if str(m.get("id", "")).endswith("#const")}
         n_twins += r["cases"]
+        # which cases have a constant twin at all (hidden operands, not negative / grouped / notwin: harness/src/lang.rs)
+        with_twin = set()
+        cases_path = os.path.join(os.path.dirname(r["events_path"]), s + "_cases.ndjson")
+        if os.path.exists(cases_path):
+            for line in open(cases_path):
+                if '"hide"' in line and '"negative":true' not in line.replace(" ", "") and '"notwin":true' not in line.replace(" ", ""):
+                    try:
+                        with_twin.add(json.loads(line)["id"])
+                    except ValueError:
+                        pass
         for m in r["mismatches"]:
             cid = str(m.get("id", ""))
             if cid.endswith("#const") and cid[:-6] not in broken:
                 chk.violation({"kind": "const-twin-diverges", "suite": s, "what": m.get("what", "")[:200],
+                               "program": m.get("program", "")}, m)
+            elif not cid.endswith("#const") and "#" not in cid and cid in with_twin and cid not in broken_twins \
+                    and m.get("kind") in ("value", "log", "outcome", "watch"):
+                # the converse: the program with its constants HIDDEN departs from the specification while the same
+                # program with the constants visible does not - the two twins behave differently
+                chk.violation({"kind": "hidden-twin-diverges", "suite": s, "what": m.get("what", "")[:200],
                                "program": m.get("program", "")}, m)
     # cases of another suite that also decide this property (claim = ((suite, (id substrings ...)), ...))
     for s, pats in claim:
